@@ -235,6 +235,38 @@ def build(run):
     run.function(variable)
     run.add("variable()/new-node-fresh-label", variable_contract, kind="values")
 
+    # ---- everything the language builds ON TOP of a variable reaches the wrapped value only through the Variable node (indexing, slicing, algebra,
+    # tensor operators): a construction-time shortcut that looks through the wrapper makes diff w.r.t. the variable lose the dependence
+    def operators_keep_the_variable():
+        import ufl.classes as C_
+        from ufl.corealg.traversal import unique_pre_traversal
+        u2 = ufl.Coefficient(Vs)
+        wrapped = [("vector coefficient", lambda: u), ("list tensor", lambda: as_vector([f, g * f])), ("sum of vectors", lambda: u + u2), ("scaled vector", lambda: 2 * u),
+                   ("component tensor", lambda: ufl.as_tensor(u[i] * f, (i,))), ("matrix-vector product", lambda: dot(A, u)), ("zero-free conditional", lambda: conditional(lt(f, g), u, u2)),
+                   ("variable of a vector variable", lambda: variable(u2)), ("gradient", lambda: grad(f * g))]
+        accesses = [("v[0]", lambda v: v[0]), ("v[1]*v[0]", lambda v: v[1] * v[0]), ("v[i]*v[i]", lambda v: v[i] * v[i]), ("dot(v, v)", lambda v: dot(v, v)),
+                    ("inner(v, u)", lambda v: inner(v, u)), ("outer(v, v)[0, 1]", lambda v: outer(v, v)[0, 1]), ("as_vector(v[i], i)", lambda v: ufl.as_tensor(v[i], (i,))),
+                    ("v + u", lambda v: v + u), ("f*v", lambda v: f * v), ("-v", lambda v: -v), ("v/g", lambda v: v / g), ("v[::-1]", lambda v: v[::-1]), ("v[:]", lambda v: v[:]),
+                    ("as_vector([v[1], v[0]])", lambda v: as_vector([v[1], v[0]])), ("as_vector([v[0], v[1]])", lambda v: as_vector([v[0], v[1]])),
+                    ("lowered dot(v, v)", lambda v: apply_algebra_lowering(dot(v, v))), ("lowered inner(v, v)", lambda v: apply_algebra_lowering(inner(v, v)))]
+        n = 0
+        for wn, mkw in wrapped:
+            for an, acc in accesses:
+                v = variable(mkw())
+                try:
+                    e = acc(v)
+                except (ValueError, TypeError) as ex:
+                    if not deliberate(ex):
+                        return violated(f"crash instead of a result or a refusal: {crash_text(ex)}", reproduced=True, backend="exec")
+                    continue
+                n += 1
+                lab = v.ufl_operands[1]
+                if not any(x is lab or (isinstance(x, C_.Label) and x == lab) for x in unique_pre_traversal(e)):
+                    return violated(f"{an} with v = variable({wn}) builds {str(e)[:160]}, which no longer contains the variable: diff({an}, v) would be zero "
+                                    f"although the expression depends on v", replay={"variable_of": wn, "access": an, "result": str(e)[:600]}, reproduced=True, backend="structural")
+        return proved("exec+structural", vcs=n, sample=f"{n} (wrapped expression, access) pairs: the result reaches the wrapped value only through the Variable node")
+    run.add("variable()/operators-keep-the-variable", operators_keep_the_variable, kind="values")
+
     for nm_, mk_ in mk_cases():
         pipe(nm_, mk_)
 
